@@ -1,0 +1,41 @@
+//go:build verif
+
+// Export shims for the verification harness under /verif (build tag "verif" only), property C03:
+// delta xDS leaves a client in the same state as state-of-the-world xDS.  Add-only; nothing here is
+// compiled into a normal build.
+package xds
+
+import (
+	discovery "github.com/envoyproxy/go-control-plane/envoy/service/discovery/v3"
+
+	"istio.io/istio/pilot/pkg/model"
+)
+
+// VerifC03PushDeltaXds exposes (*DiscoveryServer).pushDeltaXds.
+func VerifC03PushDeltaXds(s *DiscoveryServer, con *Connection, w *model.WatchedResource, req *model.PushRequest) error {
+	return s.pushDeltaXds(con, w, req)
+}
+
+// VerifC03PushXds exposes (*DiscoveryServer).pushXds (the state-of-the-world twin).
+func VerifC03PushXds(s *DiscoveryServer, con *Connection, w *model.WatchedResource, req *model.PushRequest) error {
+	return s.pushXds(con, w, req)
+}
+
+// VerifC03ProcessDeltaRequest exposes (*DiscoveryServer).processDeltaRequest.
+func VerifC03ProcessDeltaRequest(s *DiscoveryServer, req *discovery.DeltaDiscoveryRequest, con *Connection) error {
+	return s.processDeltaRequest(req, con)
+}
+
+// VerifC03ProcessRequest exposes (*DiscoveryServer).processRequest.
+func VerifC03ProcessRequest(s *DiscoveryServer, req *discovery.DiscoveryRequest, con *Connection) error {
+	return s.processRequest(req, con)
+}
+
+// VerifC03WatchedResourcesByOrder exposes (*Connection).watchedResourcesByOrder, the iteration order of
+// pushConnection / pushConnectionDelta.
+func VerifC03WatchedResourcesByOrder(con *Connection) []*model.WatchedResource {
+	return con.watchedResourcesByOrder()
+}
+
+// VerifC03NeverRemoveDelta exposes neverRemoveDelta.
+func VerifC03NeverRemoveDelta(url string) bool { return neverRemoveDelta(url) }
